@@ -170,7 +170,7 @@ class IntegerData(BaseDlmsData):
         return cls(value=int.from_bytes(bytes_data, "big", signed=True))
 
     def value_to_bytes(self) -> bytes:
-        return self.value.to_bytes(1, "big")
+        return self.value.to_bytes(1, "big", signed=True)
 
 
 @attr.s(auto_attribs=True)
